@@ -51,6 +51,13 @@ package server
 //@ props C07
 // from C07 "yields the NOTIFICATION code/subcode ... the RFCs prescribe": a Cease turned into a Hard Reset (RFC 8538 3.1)
 // carries the NOTIFICATION it stands for - its code, its subcode, then its data
+// from C07 "routing messages received in any other state never change a RIB ... the reported session/admin state always
+// matches the real one": a neighbour that is stopped (deleted, de-configured, server stopped) is not Established from
+// that moment on - an UPDATE its reader had already queued is then refused by the state guard of handleFSMMessage
+// instead of re-populating the tables of a neighbour that no longer exists
+//@ func (*BgpServer).stopNeighbor
+//@   claims at-call
+//@   at-call peer.stopFSM() requires called(Store)
 //@ func (*fsmHandler).established$2
 //@   claims at-call
 //@   at-call bgp.NewBGPNotificationMessage( requires len(arg2) == len(m.Body.(*bgp.BGPNotification).Data) + 2 && arg2[0] == m.Body.(*bgp.BGPNotification).ErrorCode && arg2[1] == m.Body.(*bgp.BGPNotification).ErrorSubcode
